@@ -38,6 +38,8 @@ fn run_case(args: &[u64]) -> Out {
         Some(19) => bits::run(&args[1..], &mut out),
         Some(6) => sched::run_borrow(&args[1..], &mut out),
         Some(60) => sched::stress_borrow(&args[1..], &mut out),
+        Some(7) => sched::run_reserve(&args[1..], &mut out),
+        Some(70) => sched::stress_reserve(&args[1..], &mut out),
         _ => {}
     }
     out
